@@ -119,7 +119,7 @@ def run_mc(
         acts[name] = acts.get(name, 0) + int(cnt)
     res["actions"] = acts
     completed = "Model checking completed. No error has been found." in out
-    res["ok"] = bool(completed and not violated) or bool(simulate and timed_out and not violated and "Error:" not in out)
+    res["ok"] = bool(completed and not violated) or bool(simulate and (timed_out or (rc == 0 and "Finished in" in out)) and not violated and "Error:" not in out)
     res["error"] = None
     if not res["ok"] and not violated:
         # machinery trouble: parse error, evaluation error, crash
